@@ -120,7 +120,7 @@ Definition bd_obs (st : hspace) (bds : list bdspec) (bd : bdspec) (with_boundary
 Definition enc_dict (st : hspace) (n : nat) (r : list set) : ob :=
   flat_map (fun k => enc (cshape st k) (nth k r [])) (seq 0 n).
 
-(* function_children / grandchildren (to the finest level) / parents / grandparents (to level 0) of the
+(* function_children / grandchildren (two levels up) / parents / grandparents (two levels down) of the
    seeded functions of every level *)
 Definition kids_obs (st : hspace) (funcs : list (list mi)) : ob :=
   let L := numlevels st in
@@ -129,11 +129,11 @@ Definition kids_obs (st : hspace) (funcs : list (list mi)) : ob :=
     if is_empty fs then []
     else (if S l <? L
           then enc (fshape st (S l)) (function_children st l fs)
-               ++ enc (fshape st (L - 1)) (function_grandchildren st (L - 1 - l) l fs)
+               ++ enc (fshape st (Nat.min (L - 1) (l + 2))) (function_grandchildren st (Nat.min (L - 1) (l + 2) - l) l fs)
           else [])
          ++ (if 1 <=? l
              then enc (fshape st (l - 1)) (function_parents st l fs)
-                  ++ enc (fshape st 0) (function_grandparents st l l fs)
+                  ++ enc (fshape st (l - 2)) (function_grandparents st (l - (l - 2)) l fs)
              else [])) (seq 0 L).
 
 Definition sup_obs (st : hspace) (funcs cells : list (list mi)) : ob :=
